@@ -197,6 +197,11 @@ void blast()
         if (r == -1) temp_read();
         if (ch != '\n') {
           substdio_put(&smtpto, "\r\n", 2);
+          /* ch starts a new line on the wire */
+          if (ch == '.')
+            substdio_put(&smtpto, ".", 1);
+          if (ch == '\r')
+            continue;
         } else
           break;
       }
